@@ -50,7 +50,7 @@ class ExprProp(Prop):
 
 
 class C06(ExprProp):
-    """Theorems about the grammar model (see Props/C06.lean) + correspondence: every well-formed expression rendered with any admissible layout evaluates to its denotation; model tied to the real parser by all operator sequences with every parenthesisation and layouts, tree shapes and results compared."""
+    """Theorems (Props/C06.lean): for every well-formed expression and every admissible layout of blanks the parser model yields a tree that represents it (`C06_parse_render`, any length, nesting, calls), the evaluator returns its denotation (`C06_query`), layouts do not matter, parentheses work anywhere. Correspondence: all operator sequences up to five with every parenthesisation and layout (also with the `**` spelling of power), random deeper expressions; results and tree shapes compared."""
     id = "C06"
     module = "Anything.Props.C06"
     trusted = ["Spec.Arith (precedence table, WF, renderer) is human input"]
@@ -81,7 +81,7 @@ class C06(ExprProp):
 
 
 class C01(ExprProp):
-    """Theorems about the evaluator model (see Props/C01.lean) + correspondence: numeric expressions evaluate to exactly the rational of the independent exact evaluator, division by zero (incl. 0^negative) is an error; big literals, deep trees, every operator mix."""
+    """Theorems (Props/C01.lean): on plain numbers `+ - * / ^` of the evaluator are exactly the exact-arithmetic operations for all rationals and integer exponents (the `pow` loop by induction), division by zero including 0^negative is an error; with C06's `C06_query` every well-formed expression under every admissible layout evaluates to its exact denotation. Correspondence: expression trees with big literals and every operator mix, implementation = model = independent exact evaluator."""
     id = "C01"
     module = "Anything.Props.C01"
     trusted = ["num-bigint / num-rational arithmetic (tied to Lean's Rat by sampling)", "Spec.Arith.denote is human input"]
